@@ -22,7 +22,7 @@ type kvCfg struct {
 	Records          uint   `json:"records"` // size hint
 }
 
-// op kinds: put putext del get browse browseall applyflags sync nosync defrag flush count reopen
+// op kinds: put putext del delall get browse browseall applyflags sync nosync defrag flush count reopen
 type kvOp struct {
 	Op    string `json:"op"`
 	K     int    `json:"k,omitempty"`     // key index 0..7
@@ -101,6 +101,7 @@ type kvSummary struct {
 	ReopenAfterOverwriteOrDelete               bool
 	NoCache, NoBrowse, Defrags, Syncs, Browses int
 	BigValue                                   bool
+	Emptied                                    int // "delall" operations
 	AbortWithFlag                              int // a walk function answered NO_BROWSE (or more) together with BR_ABORT
 }
 
@@ -261,6 +262,18 @@ func (r *kvRunner) do(i int, o kvOp) error {
 		r.db.Del(key)
 		delete(r.m, k)
 		r.barrier()
+	case "delall":
+		// the store is emptied (every key that is present is deleted)
+		for kk := 0; kk < 8; kk++ {
+			if r.m[kk] != nil {
+				r.sum.Deletes++
+				r.dirty = true
+				r.db.Del(keyTable[kk])
+				delete(r.m, kk)
+				r.barrier()
+			}
+		}
+		r.sum.Emptied++
 	case "get":
 		v := r.db.Get(key)
 		if !r.check {
